@@ -38,7 +38,8 @@ REQUIRED = ["Sqfs.C06.confinement", "Sqfs.C06.confinement_raw", "Sqfs.C06.plan_p
             "Sqfs.C06.success_means_everything_unpacked", "Sqfs.C06.exit_zero_of_all_fine", "Sqfs.C06.skip_reports_exact",
             "Sqfs.C06.confinement_without_symlinks_below", "Sqfs.C06.main_confinement_weak", "Sqfs.C06.ordByLoc_is_a_fill_order",
             # the repaired create_node (fixes/C06-mkdir-eexist-lstat.patch): no hypothesis on what R holds
-            "Sqfs.C06.confinement_any_R", "Sqfs.C06.repaired_touches_only_named_paths", "Sqfs.C06.main_confinement_any_R"]
+            "Sqfs.C06.confinement_any_R", "Sqfs.C06.repaired_touches_only_named_paths", "Sqfs.C06.main_confinement_any_R",
+            "Sqfs.C06.repaired_success_objects_in_place"]
 TRACE = ("mkdir,mkdirat,symlink,symlinkat,mknod,mknodat,open,openat,creat,lsetxattr,setxattr,fsetxattr,utimensat,utimes,"
          "futimesat,utime,fchownat,chown,lchown,fchown,fchmodat,chmod,fchmod,chdir,fchdir,unlink,unlinkat,rename,renameat,"
          "renameat2,link,linkat,truncate,rmdir,removexattr,lremovexattr,chroot,mount")
@@ -824,6 +825,19 @@ def fine(tok, res):
     return res == "0" or (tok.startswith("mkdir:") and res == "EEXIST")
 
 
+def walks_all_fine(m):
+    """no call of the walks ended the run.  For the repaired create_node a `mkdir`/`EEXIST` that is the *last* call of the trace
+    ended the run unless the name is a directory (lstat) — read off the model's final state at that path (nothing the unpacker does
+    replaces or removes an object, so it is what lstat saw)."""
+    if not all(fine(t, r) for t, r in m["tr"]):
+        return False
+    if MAIN_OP[0] == "mainr" and m["tr"] and m["tr"][-1][0].startswith("mkdir:") and m["tr"][-1][1] == "EEXIST":
+        path = unhx(m["tr"][-1][0].split(":")[1])
+        key = (m["cwd"] if m["cwd"] != "/" else "") + "".join("/" + c.hex() for c in path.split(b"/"))
+        return m["state"].get(key, "-").startswith("d:")
+    return True
+
+
 def phase_split(seq, in_order):
     """(create, fill, attrs) of a token sequence; the fill phase sorted unless its order is defined"""
     i = 0
@@ -937,7 +951,7 @@ def compare(rec, m):
     if rec["rc"] != m["exit"]:
         bad.append("exit status %s, model %d (%s)" % (rec["rc"], m["exit"], m["status"]))
     # the plan's own error is the reason of the failure only if every call was fine
-    if m["est"] and all(fine(t, r) for t, r in m["tr"]) and m["status"].startswith("err:"):
+    if m["est"] and walks_all_fine(m) and m["status"].startswith("err:"):
         kind = m["status"][4:]
         if kind == "xattrRead@attr":
             if not any(x in rec["stderr"] for x in XATTR_MSGS):
